@@ -1,5 +1,5 @@
 """C04 -- one construction, draining shutdown, single drop of the actor."""
-import random
+import random, re
 import rt_common, probe, gen_impl
 from common import *
 PID = "C04"
@@ -78,12 +78,12 @@ def run(rep):
         sc = spawn_count(c, j)
         if sc is not None and sc[0] != 1 and c["kind"] == "actor":
             rep.oblige(False)
-            if sc[2]:
-                # statements the translator cannot read: the count says nothing about the code (the premise is broken, a failing input is looked for on the real runtime)
+            if [x for x in sc[2] if re.search(r"\b(spawn\w*|thread|Thread|task|Task|Builder|Executor|block_on)\b", str(x))]:
+                # statements the translator cannot read that may start a thread / task: the count says nothing about the code (the premise is broken, a failing input is looked for on the real runtime)
                 return {"_found": False, "what": "the constructor of the handle is not in the recognised form: %d spawn statement(s) recognised next to statements the translator "
                                                  "does not read (%s): `exactly one actor thread / task per handle creation` is no longer shown" % (sc[0], [str(x)[:160] for x in sc[2]][:4])}
-            return {"what": "the constructor of the handle starts %d actor threads / tasks (recognised constructor statements: %s): creating a handle must start exactly one, "
-                            "which owns the actor value until the last handle is gone" % sc[:2]}
+            return {"what": "the constructor of the handle starts %d actor threads / tasks (recognised constructor statements: %s; other statements, none of which names a thread / task "
+                            "API: %s): creating a handle must start exactly one, which owns the actor value until the last handle is gone" % (sc[0], sc[1], [str(x)[:120] for x in sc[2]][:4])}
         sh = ctor_shadow(c, j)
         if sh is not None:
             rep.oblige(False)
